@@ -112,14 +112,16 @@ struct DiskInterface {
     *err = "read error";
     return vf_read_status == (int)NotFound ? NotFound : OtherError;
   }
-  bool vf_fail_mkdirs, vf_fail_write; long vf_stat_ret[4]; int vf_stats;
-  DiskInterface() : vf_read_status(0), vf_remove_ret(0), vf_fail_mkdirs(false), vf_fail_write(false), vf_stats(0) {}
-  bool MakeDirs(const std::string& path) { vf_ev(EV_MKDIRS, vf_path_id(path), 0, 0); return !(vf_fail_mkdirs && nondet_bool()); }
+  bool vf_fail_mkdirs, vf_fail_write; long vf_stat_ret[4]; int vf_stats; bool vf_prep_failed;      /* vf_prep_failed: some directory / response file could not be prepared */
+  DiskInterface() : vf_read_status(0), vf_remove_ret(0), vf_fail_mkdirs(false), vf_fail_write(false), vf_stats(0), vf_prep_failed(false) {}
+  bool MakeDirs(const std::string& path) { vf_ev(EV_MKDIRS, vf_path_id(path), 0, 0); bool ok = !(vf_fail_mkdirs && nondet_bool()); if (!ok) vf_prep_failed = true; return ok; }
   bool WriteFile(const std::string& path, const std::string& contents, bool crlf) {
     int id = vf_path_id(path);
     vf_ev(EV_WRITE, id, crlf ? 1 : 0, 0);
     if (id != 0) { vf_written_data = contents; vf_writes_with_data++; }        /* id 0 is the lock file by convention of the harnesses */
-    return !(vf_fail_write && nondet_bool());
+    bool ok = !(vf_fail_write && nondet_bool());
+    if (!ok && id != 0) vf_prep_failed = true;      /* the lock file (id 0) is best effort: its result is not used */
+    return ok;
   }
   TimeStamp Stat(const std::string& path, std::string* err) {       /* contract: -1 on error (then *err is set), 0 if missing, else the mtime */
     long r = vf_stat_ret[vf_stats < 4 ? vf_stats : 3]; vf_stats++;
